@@ -18,4 +18,6 @@ PROPS = {
     "C11": P(["control", "recover", "pipe"], panic_owner="C11"),
     "C12": P(["force", "control"], panic_owner="C12"),
     "C13": P(["reconf"]),
+    "C14": P(["api"], level="fault_enumeration"),
+    "C17": P(["persist", "api"]),
 }
